@@ -4,10 +4,13 @@ From Coq Require Import List Bool Arith ZArith.
 From Krrood Require Import Base.Sx Onto.ClosureSpec Onto.Closure Onto.ContainerSpec Onto.Container Onto.ContainerProofs Onto.ContainerInfer.
 Import ListNotations. Open Scope nat_scope.
 
-(* for every history of assignment, self-assignment, += / |=, append, extend (of a list, a one-shot iterator or the field
-   itself), insert, item assignment (index, or a slice given a list or a one-shot iterator), add, update (any number of iterables), from any contents s whose elements are recorded (a set holding no element twice):
-   the contents after every operation and the IndexErrors are those of a plain Python list / set, every element of the
-   field is recorded in the graph, and nothing recorded is forgotten *)
+(* Elements are object IDENTITIES (two distinct objects that compare and hash equal are two elements; Python list semantics never
+   compare elements, and every write path records element by element).
+   For every history of assignment, self-assignment, += / |=, append, extend (of a list, a one-shot iterator or the field
+   itself), insert, item assignment (index, or a slice given a list or a one-shot iterator), add, update (any number of
+   iterables), from any contents s whose elements are recorded (a set holding no element twice):
+   the contents after every operation and the IndexErrors are those of a plain Python list / set, every element (identity) of
+   the field is recorded in the graph, and nothing recorded is forgotten *)
 Theorem C16_writes : forall k ops s, wf k (items s) -> incl (items s) (rec s) ->
   fst (Container.run k ops s) = fst (py_run k ops (items s)) /\
   items (snd (Container.run k ops s)) = snd (py_run k ops (items s)) /\
